@@ -237,6 +237,9 @@ func init() {
 	for _, a := range workload.Aliasing {
 		directed = append(directed, struct{ Src, In string }{a.Src, a.In})
 	}
+	for _, a := range workload.BigNumbers {
+		directed = append(directed, struct{ Src, In string }{a.Src, a.In})
+	}
 	for i, a := range workload.Chains {
 		if i%5 == 0 { // a fifth of the chains; C05 runs them all
 			directed = append(directed, struct{ Src, In string }{a.Src, a.In})
